@@ -271,7 +271,7 @@ def factory(vc):
     closed and OperationTimedOut raised"""
     from cassandra.connection import Connection, ProtocolVersionUnsupported, ConnectionException
     from cassandra import OperationTimedOut, AuthenticationFailed
-    state = vc.choice('handshake', ['ready', 'failed-auth', 'failed-unsupported-version', 'still-running'])
+    state = vc.choice('handshake', ['ready', 'failed-auth', 'failed-unsupported-version', 'closed-by-the-peer-mid-handshake', 'still-running'])
     log = []
     ev = Ev()
     ev.flag = state != 'still-running'
@@ -280,8 +280,13 @@ def factory(vc):
         err = SObj(AuthenticationFailed, {'args': ('bad',)})
     elif state == 'failed-unsupported-version':
         err = SObj(ConnectionException, {'args': ('unsupported',)})
+    defunct = err is not None
+    if state == 'closed-by-the-peer-mid-handshake':
+        # the reactors' close() on a connection that never became ready: closed, NOT defunct, the reason recorded in last_error, waiters released
+        from cassandra.connection import ConnectionShutdown
+        err = SObj(ConnectionShutdown, {'args': ('Connection to ep was closed',)})
     conn = vc.obj(Connection, connected_event=ev, last_error=err, is_unsupported_proto_version=(state == 'failed-unsupported-version'),
-                  protocol_version=5, is_closed=(err is not None), is_defunct=(err is not None))
+                  protocol_version=5, is_closed=(err is not None), is_defunct=defunct)
     vc.stub(C + 'close', lambda self_: log.append('close'))
     vc.stub('time.time', lambda: vc.real('now'))
     made = []
@@ -292,7 +297,7 @@ def factory(vc):
     kind, r = vc.call_catch(Connection.__dict__['factory'].__func__, _M(cls, 'ConnectionClass'), 'ep', vc.real('timeout'))
     if state == 'ready':
         vc.check('ready/returned', kind == 'ok' and r is conn and log == [])
-    elif state == 'failed-auth':
+    elif state in ('failed-auth', 'closed-by-the-peer-mid-handshake'):
         vc.check('failed/raises-the-handshake-error', kind == 'exc' and r is err)
     elif state == 'failed-unsupported-version':
         vc.check('failed/raises-ProtocolVersionUnsupported', kind == 'exc' and issubclass(exc_class(r), ProtocolVersionUnsupported))
